@@ -176,7 +176,7 @@ def run_one(ctx: Any, seed: int, tier: str, replay: Optional[dict] = None) -> di
                 # a transient failure of the size probe itself (EIO/ESTALE on stat) for an
                 # oversized file: the run may abort or skip, it must not parse/rewrite the file
                 victim = byte_skipped[sc["node_seed"] % len(byte_skipped)]
-                plan = [{"cls": "stat", "path": victim, "nth": 0, "kind": "err", "errno": "EIO"}]
+                plan = [{"cls": "stat", "path": victim, "repeat": True, "kind": "err", "errno": "EIO"}]
             knobs = {"lookahead": sc["lookahead"], "dequeue": sc["dequeue"], "pool_backend": sc["backend"], "journal_reads": bool(plan),
                      "worker_plan": plan}
             n = z.node({"name": "s%d" % si, "root": root, "cwd": cwd, "seed": sc["node_seed"], "knobs": knobs, "tape": sc.get("tape")}, sink=events)
